@@ -175,7 +175,9 @@ class ConcurrentExecutorFutureResults(ConcurrentExecutorListResults):
     def _put_result(self, result, idx, success):
         super()._put_result(result, idx, success)
         with self._condition:
-            if self._current == self._exec_count:
+            # results that complete synchronously re-enter here once per nesting level,
+            # and a fail-fast failure is also raised by execute(): complete the future once
+            if self._current == self._exec_count and not self.future.done():
                 if self._exception and self._fail_fast:
                     self.future.set_exception(self._exception)
                 else:
@@ -206,6 +208,7 @@ def execute_concurrent_async(
     try:
         executor.execute(concurrency=concurrency, fail_fast=raise_on_first_error)
     except Exception as e:
-        future.set_exception(e)
+        if not future.done():
+            future.set_exception(e)
 
     return future
